@@ -263,6 +263,12 @@ def falsify(ctx):
             ctx.case((repr(files), tuple(argv)), nontrivial=len(files) > 1)
             ctx.count("style:" + style)
             ctx.sample({"files": files, "argv": argv}, limit=2)
+            if style == "glob":
+                # files matched by one pattern come in the file system's order (unspecified by the property): read the
+                # order this directory yields and give the library the samples in that order
+                from pathlib import Path
+                order = [p_.name for p_ in Path(d, "g").glob("part*.json")]
+                samples = [x for name_ in order for x in files["g/" + name_]]
             try:
                 want = library_text({"Root": samples}, opts)
                 lib_err = None
@@ -287,9 +293,6 @@ def falsify(ctx):
                 text = out[:-1] if out.endswith("\n") else out
             body = clitools.strip_header(text)
             if body is None or body != want:
-                if style == "glob" and body is not None and sorted(body.split("\n")) == sorted(want.split("\n")):
-                    ctx.count("glob-order-differs")
-                    continue
                 yield {"kind": "cli-differs-from-library", "files": files, "argv": argv,
                        "observed": {"cli": (body or text)[:1500], "library": want[:1500]}}
 
